@@ -144,3 +144,14 @@ package cmap
 //@   requires cmap != nil
 //@   ensures gid == ite(0 <= r && r <= 255, cmap.Data[r], 0)
 //@   modifies nothing
+
+// Format 4 and 12 lookups: the stored glyph for a mapped code point, glyph 0
+// for every other rune (outside the BMP for format 4; negative).
+//@ func (cmap Format4) Lookup(r rune) (gid glyph.ID)   props: C09 C16
+//@   ensures gid == ite(0 <= r && r <= 65535 && has(cmap, r), cmap[r], 0)
+//@   modifies nothing
+
+//@ func (cmap Format12) Lookup(code rune) (gid glyph.ID)   props: C09 C16
+//@   requires forall k uint32 :: has(cmap, k) ==> k <= 2147483647   // code points, not arbitrary 32-bit keys
+//@   ensures gid == ite(0 <= code && has(cmap, code), cmap[code], 0)
+//@   modifies nothing
